@@ -79,7 +79,7 @@ func partCtor(c *vfw.Ctx) {
 			nThin++
 		}
 	}
-	c.Rule(fmt.Sprintf("part A (constructors): %d constructors = {NewIntItem, NewUintItem, NewFloatItem} x byteSize {1,2,4,8,-1,0,3,16} + NewBinaryItem + NewBooleanItem + shortcuts I1..I8,U1..U8,F4,F8,B,BOOLEAN; "+
+	c.Rule(fmt.Sprintf("part A (constructors): %d constructors = {NewIntItem, NewUintItem, NewFloatItem} x byteSize {1,2,4,8, -1,0,3,16, 260, 2^16+8, 2^32+{1,2,4,8}, 4-2^32, 5*2^32+8, -8} + NewBinaryItem + NewBooleanItem + shortcuts I1..I8,U1..U8,F4,F8,B,BOOLEAN; "+
 		"argument alphabet of %d symbols = every boundary value {0,+-1, 127..-129, 255/256, 32767..-32769, 65535/65536, +-2^31 and neighbours, 2^32-1/2^32, +-(2^53-1..2^53+1), Min/MaxInt64 and neighbours, MaxInt64+1, MaxUint64-1/MaxUint64} in every Go integer type that holds it, "+
 		"float64/float32 specials (+-0, +-MaxFloat32 and the next float64s beyond, MaxFloat32+half ulp, +-1e39, +-MaxFloat64, +-Inf, NaN, 2^53+2, subnormals), %d strings (decimal/hex/octal/binary, signs, spaces, underscores, overflowing, float and NaN/Inf spellings, non-numeric), bool, nil, struct{}, []any, map, *int, nil *int, uintptr, named int and named []int, "+
 		"nil/empty/1..3-element slices of every element type; ALL argument lists of length 0, 1 and 2 for valid byte sizes (length 2 over the %d-symbol thinned alphabet for invalid byte sizes); thorough adds ALL lists of length 3 over the thinned alphabet + every string and float64 symbol (valid byte sizes and byteSize 3). non-trivial = at least one argument",
